@@ -949,7 +949,8 @@ impl<'a> Gui<'a> {
                         let last = win.infos.iter().rev().find(|i| i.score_cp.is_some() || i.score_mate.is_some());
                         let announced = last.and_then(|i| i.score_mate);
                         if announced != Some(n as i64) {
-                            return Err(viol("C08", "forced_mate_not_announced", format!("{}: the reference proves mate in {} but the depth-{} search reports {:?}", ctx, n, d, last.map(|i| (i.score_cp, i.score_mate)))).with("n", json!(n)));
+                            // in the C11 check this is the "mating side receives a winning mate score" clause
+                            return Err(viol(if self.focus == "C11" { "C11" } else { "C08" }, "forced_mate_not_announced", format!("{}: the reference proves mate in {} but the depth-{} search reports {:?}", ctx, n, d, last.map(|i| (i.score_cp, i.score_mate)))).with("n", json!(n)));
                         }
                         if !Mv::parse(&best).map_or(false, |m| firsts.contains(&m)) {
                             return Err(viol("C08", "bestmove_does_not_keep_the_mate", format!("{}: bestmove {} does not keep mate in {} (mating first moves: {:?})", ctx, best, n, firsts.iter().map(|m| m.uci()).collect::<Vec<_>>())).with("n", json!(n)));
